@@ -39,11 +39,17 @@ def run_shard(shard, out_base):
         bases = gen.valid_ibans(cc, spec, rng, SIZES[shard["tier"]])
         # make sure letters occur where the structure allows them
         bases.append(R.make_iban(cc, gen.random_bban(spec, rng, "letters")))
+        extra = [R.make_iban(cc, gen.random_bban(spec, rng, "letters")) for _ in range(12)]
         for b in bases:
             o = observe(S.IBAN, b)
             if not o.ok:
                 mon.viol("base_rejected", {"iban": b}, "ACCEPT", o.brief())
-                continue
+                # keep looking for a letter-heavy base that the library does accept
+                nxt = next((x for x in extra if observe(S.IBAN, x).ok), None)
+                if nxt is None:
+                    continue
+                extra.remove(nxt)
+                b = nxt
             mon.tally("bases")
             for p in range(2, len(b)):
                 k = kind(b[p])
